@@ -109,7 +109,7 @@ pub fn gen(rng: &mut Rng, _k: usize, _tier: &str) -> J {
         let (unit, w) = match (style, which) { ("fk", 0) => (r[3].as_i64(), 1), ("fk", 2) => (r[0].as_i64().filter(|x| rids.contains(x)), 1), ("weight", _) => (r[0].as_i64(), r[3].as_i64().unwrap_or(1)), _ => (r[0].as_i64(), 1) };
         unit.map(|u| json!([u, w, r[1], r[2]])) }).collect() };
     let tracked = json!([tracked_of(&ta, 0), tracked_of(&tb, 1), tracked_of(&tc, 2)]);
-    json!({"tree": tree, "style": style, "aliased": rng.chance(1, 4), "ta": ta, "tb": tb, "tc": tc, "pp": pp, "tracked": tracked})
+    json!({"tree": tree, "style": style, "top_reserved": rng.chance(1, 25), "aliased": rng.chance(1, 4), "ta": ta, "tb": tb, "tc": tc, "pp": pp, "tracked": tracked})
 }
 
 fn cells(rows: &J, nullable_last: bool) -> Vec<Vec<Cell>> {
@@ -120,7 +120,9 @@ pub fn eval(case: &J) -> Outcome {
     let mut out = Outcome::new();
     let mut ctes = vec![];
     let top = emit(&case["tree"], &mut ctes);
-    let sql = format!("WITH {} SELECT c0 AS c0, c1 AS c1 FROM {top}", ctes.join(", "));
+    // `top_reserved`: the outermost projection itself names two of its columns like the unit and weight columns of the rewriting
+    let tail = if case["top_reserved"] == true { ", c0 AS \"_PRIVACY_UNIT_\", 1 AS \"_PRIVACY_UNIT_WEIGHT_\"" } else { "" };
+    let sql = format!("WITH {} SELECT c0 AS c0, c1 AS c1{tail} FROM {top}", ctes.join(", "));
     let kind = |t: &J| -> Vec<String> { fn walk(t: &J, acc: &mut Vec<String>) { if let Some(a) = t.as_array() { if let Some(s) = a[0].as_str() { acc.push(s.to_string()); for x in &a[1..] { if x.is_array() { walk(x, acc); } } } } } let mut v = vec![]; walk(t, &mut v); v };
     for k in kind(&case["tree"]) { out.tag(&format!("op={k}")); }
     let style = case["style"].as_str().unwrap_or("own");
